@@ -28,6 +28,7 @@ EXPLANATION = (
     "possibly-Deferred value; synchronous generate_assignments is not one) must be dominated by a re-check of "
     "_stopping located after that suspension (facts on self.* are killed at suspensions)."
     ' Also: ConsumerGroup.stop() shuts the consumers down before leaving and sweeps them again after the fence is up (R2, finding F41); the fence is never lowered outside start (R7); a commit is abandoned without retry only for non-retriable broker answers (R3).'
+    " Inside the loops over the decoded assignment nothing conditions the construction of a partition consumer, and topic / partition are the loop variables."
 )
 SHARED = [('C17', ['R8', 'R9'], 'a member whose generation has been superseded does rejoin: its consumers do not run on under the old generation (a commit rejected for one consumer reaches the eviction decision)'), ('C13', ['R5'], 'consumers shut down before a rejoin commit everything they processed'), ('C03', ['R6', 'R7'], "partition consumers start from the group's committed position and commit with their generation and member id"), ('C14', ['R3'], 'a consumer that cannot learn the committed position fails instead of starting elsewhere'), ('C02', ['R6'], "consumers start from the group's committed position")]
 ASSUMPTIONS = [
